@@ -478,7 +478,7 @@ impl Property for C01 {
         }
     }
     fn rule(&self) -> &'static str {
-        "seeded world (<=48 solvables; unions, root constraints, locks, favored, exclusions, Unknown, missing, cycles, soft requirements, all hint patterns) x sync/async schedule x activity params x hash salt; oracle: every Ok(S) satisfies Valid(S) evaluated on the provider tables; non-trivial = solve returned Ok with >= 2 solvables; distinct = (world, completion trace, fault plan) hash"
+        "seeded world (<=48 solvables; unions, root constraints, locks, favored, exclusions, Unknown, missing, cycles, soft requirements, all hint patterns) x sync/async schedule x activity params x hash salt; oracle: every Ok(S) satisfies Valid(S) evaluated on the provider tables; non-trivial = solve returned Ok with >= 2 solvables; distinct = (world, completion trace, fault plan) hash; families: soft requirements nobody else requests, the documented-exemption corner, runs of soft requirements that are rejected one right after the other; interchangeable candidates (twins) on one seed in five"
     }
     fn gen(&self, seed: u64, tier: Tier) -> Vec<Scenario> {
         let mut base = if seed % 3 == 0 {
@@ -557,7 +557,7 @@ impl Property for C02 {
         }
     }
     fn rule(&self) -> &'static str {
-        "conflict-rich seeded world (narrow version sets, constrains, locks, diamonds) x hints x rank/id permutation x schedule x activity params; oracle: verdict of solve (no soft requirements) = verdict of an independent complete DPLL over the documented rules; non-trivial = Unsolvable verdict, or Ok on an instance whose first-choice closure is inconsistent (search had to deviate); distinct = (world, trace, plan) hash"
+        "conflict-rich seeded world (narrow version sets, constrains, locks, diamonds) x hints x rank/id permutation x schedule x activity params; oracle: verdict of solve (no soft requirements) = verdict of an independent complete DPLL over the documented rules; non-trivial = Unsolvable verdict, or Ok on an instance whose first-choice closure is inconsistent (search had to deviate); distinct = (world, trace, plan) hash; one seed in four uses the dense parameter set (few small packages, every feature at a high rate); one in six solves the problem on a warm solver (1-2 earlier solves), one in twenty moves it more than 32 decision levels below the root (deep prefix) with lazily discovered Unknown dependencies"
     }
     fn gen(&self, seed: u64, tier: Tier) -> Vec<Scenario> {
         let base = if seed % 4 == 0 {
@@ -871,7 +871,7 @@ impl Property for C03 {
         }
     }
     fn rule(&self) -> &'static str {
-        "conflict-rich seeded worlds; only Unsolvable results are evaluated: every edge of Conflict::graph is checked against the provider tables, every node must be reachable from root, and the CNF made of the drawn facts alone (+ at-most-one inside forbid-connected components) must be UNSAT by the reference DPLL; non-trivial = graph with >= 4 edges; distinct = (world, trace, plan) hash"
+        "conflict-rich seeded worlds; only Unsolvable results are evaluated: every edge of Conflict::graph is checked against the provider tables, every node must be reachable from root, and the CNF made of the drawn facts alone (+ at-most-one inside forbid-connected components) must be UNSAT by the reference DPLL; non-trivial = graph with >= 4 edges; distinct = (world, trace, plan) hash; families: cyclic conflicts whose members are interchangeable candidates, forests, universes of up to 14 packages / 72 solvables on one seed in five"
     }
     fn gen(&self, seed: u64, tier: Tier) -> Vec<Scenario> {
         let mut base = GenParams::conflict_rich();
@@ -958,7 +958,7 @@ impl Property for C04 {
         }
     }
     fn rule(&self) -> &'static str {
-        "widest swarm (hints x constraints/exclusions/locks, soft requirements x exclusions/unrequested packages, self-constraints, cycles, empty and missing packages, duplicate requirements; sync and async; both build profiles); oracle: no panic, no deadlock, no step/poll budget, conflict graph + graphviz(x2) + user-friendly message finish within max(64KiB, 2KiB*(nodes+edges)^2); non-trivial = world with >= 4 solvables and at least one fault kind fired; distinct = (world, trace, plan) hash"
+        "widest swarm (hints x constraints/exclusions/locks, soft requirements x exclusions/unrequested packages, self-constraints, cycles, empty and missing packages, duplicate requirements; sync and async; both build profiles); oracle: no panic, no deadlock, no step/poll budget, conflict graph + graphviz(x2) + user-friendly message finish within max(64KiB, 2KiB*(nodes+edges)^2); non-trivial = world with >= 4 solvables and at least one fault kind fired; distinct = (world, trace, plan) hash; families: rejected-soft runs, cyclic conflicts with interchangeable candidates, histories on a warm solver (with cancelled earlier solves), deep prefix (33-70 decision levels), an all-levels tracing subscriber on one seed in eight, five representations of the cancellation value"
     }
     fn gen(&self, seed: u64, tier: Tier) -> Vec<Scenario> {
         let mut r = Rng::stream(seed, "c04");
@@ -1055,7 +1055,7 @@ impl Property for C05 {
         }
     }
     fn rule(&self) -> &'static str {
-        "satisfiable conflict-rich worlds (decoy candidates whose dependency trees end in a conflict) with and without soft requirements; oracle: S is contained in the least fixpoint Reach(root requirements + accepted soft solvables) along requirement edges satisfied inside S; non-trivial = Ok on an instance whose first-choice closure is inconsistent (backtracking happened) with >= 3 solvables; distinct = (world, trace, plan) hash"
+        "satisfiable conflict-rich worlds (decoy candidates whose dependency trees end in a conflict) with and without soft requirements; oracle: S is contained in the least fixpoint Reach(root requirements + accepted soft solvables) along requirement edges satisfied inside S; non-trivial = Ok on an instance whose first-choice closure is inconsistent (backtracking happened) with >= 3 solvables; distinct = (world, trace, plan) hash; one seed in six solves the problem on a warm solver (an earlier problem is often the same problem plus further requirements), one in twenty moves it more than 32 decision levels below the root with lazily discovered Unknown dependencies"
     }
     fn gen(&self, seed: u64, tier: Tier) -> Vec<Scenario> {
         let mut base = GenParams::conflict_rich();
@@ -1143,7 +1143,7 @@ impl Property for C06 {
         }
     }
     fn rule(&self) -> &'static str {
-        "any seeded world/problem with a non-yielding provider; the same scenario is executed under k different ahash salts (k=4 quick, 8 thorough; every ahash::RandomState::new() in the subject draws from the salt stream) and once more under the simulator's executor; oracle: identical solution vector, or identical user-friendly message and graphviz text; non-trivial = result has >= 3 solvables or is Unsolvable; distinct = (world, plan) hash"
+        "any seeded world/problem with a non-yielding provider; the same scenario is executed under k different ahash salts (k=4 quick, 8 thorough; every ahash::RandomState::new() in the subject draws from the salt stream) and once more under the simulator's executor; oracle: identical solution vector, or identical user-friendly message and graphviz text; non-trivial = result has >= 3 solvables or is Unsolvable; distinct = (world, plan) hash; families: cyclic conflicts, conflicts of several hundred clauses (2-3 packages with 31-50 candidates each pinning a shared package), and repeated runs on one long-lived solver (the same problem 300-3000 times, preferring problems that learn clauses): once a repetition needs nothing from the provider, every further repetition must give the same output"
     }
     fn gen(&self, seed: u64, tier: Tier) -> Vec<Scenario> {
         let mut base = match seed % 3 {
@@ -1373,7 +1373,7 @@ impl Property for C08 {
         }
     }
     fn rule(&self) -> &'static str {
-        "conflict-rich worlds whose root requirements are all Single (distinct and repeated packages), no soft requirements, random activity params; F = first-ranked candidate of every root requirement; precondition (reference DPLL): problem AND all of F is satisfiable (else skipped); oracle: F is a subset of S; non-trivial = precondition holds and the first-choice closure is inconsistent (a conflict below the roots had to be resolved); distinct = (world, trace, plan) hash"
+        "conflict-rich worlds whose root requirements are all Single (distinct and repeated packages), no soft requirements, random activity params; F = first-ranked candidate of every root requirement; precondition (reference DPLL): problem AND all of F is satisfiable (else skipped); oracle: F is a subset of S; non-trivial = precondition holds and the first-choice closure is inconsistent (a conflict below the roots had to be resolved); distinct = (world, trace, plan) hash; one seed in five has packages with 21-60 candidates, some of them excluded"
     }
     fn gen(&self, seed: u64, tier: Tier) -> Vec<Scenario> {
         let mut base = GenParams::conflict_rich();
@@ -1527,7 +1527,7 @@ impl Property for C09 {
         }
     }
     fn rule(&self) -> &'static str {
-        "worlds without availability hints; sync and async; single solves and sequences of 2-3 solves on one solver; oracle over the provider call log: (a) causality of every get_dependencies / get_candidates start w.r.t. dependency sets already delivered, (b) at most one request per name / solvable per solver unless the earlier one was dropped in flight, (c) on instances meeting C07's precondition the fetched solvables equal the first-choice closure and the fetched names equal those mentioned by root and the closure; non-trivial = at least 3 get_dependencies calls; distinct = (world, trace, plan) hash"
+        "worlds without availability hints; sync and async; single solves and sequences of 2-3 solves on one solver; oracle over the provider call log: (a) causality of every get_dependencies / get_candidates start w.r.t. dependency sets already delivered, (b) at most one request per name / solvable per solver unless the earlier one was dropped in flight, (c) on instances meeting C07's precondition the fetched solvables equal the first-choice closure and the fetched names equal those mentioned by root and the closure; non-trivial = at least 3 get_dependencies calls; distinct = (world, trace, plan) hash; on half of the histories earlier solves are cancelled at a seeded poll (between any two provider calls); what later solves ask for is still judged"
     }
     fn gen(&self, seed: u64, tier: Tier) -> Vec<Scenario> {
         let base = match seed % 3 {
@@ -1704,7 +1704,7 @@ impl Property for C10 {
         }
     }
     fn rule(&self) -> &'static str {
-        "asynchronous runs under the simulator's executor: each seeded world is run under m schedules (m=8 quick, 16 thorough) drawn from all policies (random, FIFO, LIFO, virtual-time latencies, starvation of a kind or of the oldest request, batching, spurious wakes) and yield masks; one seed in five is a two-solve history on one solver whose first solve is cancelled at a seeded poll (requests dropped in flight); oracle per schedule and per solve: terminates (no deadlock = root future pending with nothing in flight; no budget), verdict = independent reference (= synchronous verdict), Ok(S) valid, at most one get_candidates per name and one solver-originated get_dependencies per solvable over the solver's lifetime (a request dropped in flight may be re-issued); non-trivial = at least 2 quiescent points and >= 3 requests completed; distinct = (world, completion trace) hash"
+        "asynchronous runs under the simulator's executor: each seeded world is run under m schedules (m=8 quick, 16 thorough) drawn from all policies (random, FIFO, LIFO, virtual-time latencies, starvation of a kind or of the oldest request, batching, spurious wakes) and yield masks; one seed in five is a two-solve history on one solver whose first solve is cancelled at a seeded poll (requests dropped in flight); oracle per schedule and per solve: terminates (no deadlock = root future pending with nothing in flight; no budget), verdict = independent reference (= synchronous verdict), Ok(S) valid, at most one get_candidates per name and one solver-originated get_dependencies per solvable over the solver's lifetime (a request dropped in flight may be re-issued); non-trivial = at least 2 quiescent points and >= 3 requests completed; distinct = (world, completion trace) hash; families: wide fan-out, shared requirement (an installed solvable and eagerly encoded undecided candidates ask for the same version set, whose candidates are already constrained away)"
     }
     fn gen(&self, seed: u64, tier: Tier) -> Vec<Scenario> {
         let base = match seed % 3 {
@@ -1964,7 +1964,7 @@ impl Property for C12 {
         }
     }
     fn rule(&self) -> &'static str {
-        "for each seeded (world, problem incl. soft requirements, sync or async schedule): a baseline run counts P polls of should_cancel_with_value, then EVERY poll index k < P (all of them when P <= 64, else 64 seeded indices plus 0, 1, P-1) is faulted twice: persistent from k and transient at k only, plus one never-firing plan (k = P + 5); oracle: result is Cancelled carrying a token handed out at a fired poll, no get_candidates / get_dependencies start after the first Some, never Ok / Unsolvable; never-firing plan: result and provider call sequence equal the baseline; non-trivial = cancellation fired at a poll index >= 1; distinct = (world, trace, fault plan) hash"
+        "for each seeded (world, problem incl. soft requirements, sync or async schedule): a baseline run counts P polls of should_cancel_with_value, then EVERY poll index k < P (all of them when P <= 64, else 64 seeded indices plus 0, 1, P-1) is faulted twice: persistent from k and transient at k only, plus one never-firing plan (k = P + 5); oracle: result is Cancelled carrying a token handed out at a fired poll, no get_candidates / get_dependencies start after the first Some, never Ok / Unsolvable; never-firing plan: result and provider call sequence equal the baseline; non-trivial = cancellation fired at a poll index >= 1; distinct = (world, trace, fault plan) hash; per faulted run the cancellation value is a struct, a String, a &'static str, a u64 or a tuple, and on a third of the seeds half of the runs have a tracing subscriber enabled at every level; additional oracle: between the first poll that answered Some and the return of solve the solve future is never left pending (it does not wait for requests in flight)"
     }
     fn gen(&self, seed: u64, tier: Tier) -> Vec<Scenario> {
         let mut base = match seed % 3 {
@@ -2137,7 +2137,7 @@ impl Property for C13 {
         }
     }
     fn rule(&self) -> &'static str {
-        "histories of 2-5 solve calls on one solver over one seeded world (same problem again, different requirements / constraints / soft lists, UNSAT then SAT), with cancellation (persistent during one call, cleared before the next) striking at a seeded poll index, also while requests are in flight; sync and async; oracle per call: terminates (no deadlock / budget), does not crash where a fresh solver does not, verdict = reference, Ok(S) valid; across the history: no get_candidates(name) / get_dependencies(solvable) whose earlier request was delivered is started again; non-trivial = history with >= 2 completed calls, at least one of which reuses cached metadata; distinct = (world, trace, plan) hash"
+        "histories of 2-5 solve calls on one solver over one seeded world (same problem again, different requirements / constraints / soft lists, UNSAT then SAT), with cancellation (persistent during one call, cleared before the next) striking at a seeded poll index, also while requests are in flight; sync and async; oracle per call: terminates (no deadlock / budget), does not crash where a fresh solver does not, verdict = reference, Ok(S) valid; across the history: no get_candidates(name) / get_dependencies(solvable) whose earlier request was delivered is started again; non-trivial = history with >= 2 completed calls, at least one of which reuses cached metadata; distinct = (world, trace, plan) hash; long-lived solvers: on one seed in 400 a history of 1-3 small problems is repeated 150-2000 times on one solver, on one in 25000 more than 65536 times; a cancelled call returns at the poll that told it so (its future is not left pending afterwards)"
     }
     fn gen(&self, seed: u64, tier: Tier) -> Vec<Scenario> {
         let mut base = match seed % 3 {
@@ -2344,7 +2344,7 @@ impl Property for C14 {
         }
     }
     fn rule(&self) -> &'static str {
-        "hard problem + 1..5 soft solvables of every category (compatible, incompatible, duplicates of the hard solution, other versions of installed packages, excluded, locked-out, Unknown dependencies, packages nobody requests, conflicts below the soft solvable) in seeded order; sync and async; oracle: (a) hard problem satisfiable by the reference => Ok, (b) Valid(S) with the documented exemption, (c) a soft X for which even the lenient reference finds hard AND X unsatisfiable is absent from S, (d) when FirstChoice(hard) united with the first-choice closures of all soft solvables is consistent and exclusive under the strict rules every soft solvable is in S; non-trivial = at least one soft solvable accepted and one rejected, or (d) applied; distinct = (world, trace, plan) hash"
+        "hard problem + 1..5 soft solvables of every category (compatible, incompatible, duplicates of the hard solution, other versions of installed packages, excluded, locked-out, Unknown dependencies, packages nobody requests, conflicts below the soft solvable) in seeded order; sync and async; oracle: (a) hard problem satisfiable by the reference => Ok, (b) Valid(S) with the documented exemption, (c) a soft X for which even the lenient reference finds hard AND X unsatisfiable is absent from S, (d) when FirstChoice(hard) united with the first-choice closures of all soft solvables is consistent and exclusive under the strict rules every soft solvable is in S; non-trivial = at least one soft solvable accepted and one rejected, or (d) applied; distinct = (world, trace, plan) hash; a crash that the hard problem alone does not show counts as the soft list turning a solvable problem into an error; family: runs of soft requirements rejected one right after the other"
     }
     fn gen(&self, seed: u64, tier: Tier) -> Vec<Scenario> {
         let mut base = match seed % 3 {
